@@ -1,10 +1,8 @@
 ---- MODULE HierarchyGen ----
 (* G phase for C05: the hierarchies of HierarchyCases.tla with <= N classes, written as JSON. *)
 EXTENDS HierarchyCases, Json, IOUtils, SequencesExt
-CONSTANTS N
-Cases ==
-    UpTo(PartA, N) \cup UpTo(PartB, N) \cup UNION {PartC(n, n <= 3) : n \in 1..N}
-    \cup UpTo(PartD, N) \cup UpTo(PartE, N) \cup UpTo(PartF, N) \cup UpTo(PartH, N)
+CONSTANTS N, Full, Fifth
+Cases == UpTo(N, Full) \cup (IF Fifth THEN Part5 ELSE {})
 ASSUME JsonSerialize(IOEnv.VERIF_OUT, SetToSeq(Cases))
 ASSUME PrintT(<<"@@PRINT@@ cases", Cardinality(Cases)>>)
 VARIABLE dummy
